@@ -33,7 +33,7 @@ Definition expected (c : tcase) : answer :=
   | CExp b f _ => AStr (to_exponential (of_bits b) f)
   | CPrec b p _ => AStr (to_precision (of_bits b) p)
   | CRadix b r out => AValid (radix_ok (of_bits b) r out)
-  | CRound b _ => ABits (canon_bits (of_bits b))
+  | CRound b _ => ABits (canon_bits (match of_bits b with S754_zero _ => S754_zero false | v => v end))
   | CNum s _ => ABits (canon_bits (string_to_number s))
   | CPFloat s _ => ABits (canon_bits (parse_float s))
   | CPInt s r _ => ABits (canon_bits (parse_int s r))
